@@ -188,6 +188,19 @@ def generate(repo):
         and re.search(r'let\s+check_point\s*=\s*self\.storage\.stats\(\)\.check_point', ar) else 'false'))
     out.append('Definition repair_upto_max_of_maxid_and_watermark : bool := %s.\n' % (
         'true' if re.search(r'let\s+scan_max\s*=\s*self\s*\.\s*max_document_id\s*\.\s*load\([^)]*\)\s*\.\s*max\(\s*self\.durable_alloc_watermark\.load\([^)]*\)\s*\)', ar, re.S) else 'false'))
+    # the scan probes EVERY id of the window: the loop body has no early exit (break / return / labelled jump) and
+    # no state that can skip the fetch; the only way out is the upper bound of the range
+    mfor = re.search(r'for\s+id\s+in\s+\(\s*check_point\s*\+\s*1\s*\)\s*\.\.=\s*scan_max\s*', ar)
+    loop = block_after(ar, r'for\s+id\s+in\s+\(\s*check_point\s*\+\s*1\s*\)\s*\.\.=\s*scan_max', 'auto_repair_indexes.loop') if mfor else ''
+    if not mfor:
+        lost(G, 'auto_repair_indexes.loop')
+    exits = re.findall(r'\bbreak\b|\breturn\b|\bcontinue\b', loop)
+    first_stmt = re.match(r'\{\s*match\s+self\s*\.\s*storage\s*\.\s*fetch::<DocumentOwned>\s*\(\s*&Self::doc_path\(id\)\s*\)\s*\.\s*await', loop)
+    loops_in_fn = len(re.findall(r'\bfor\b|\bwhile\b|\bloop\b', ar))
+    out.append('Definition repair_scan_no_early_exit : bool := %s.  (* exits in the loop body: %s *)\n' % (
+        'true' if loop and not exits and first_stmt and loops_in_fn == 1 else 'false', ', '.join(exits) or 'none'))
+    out.append('Definition repair_scan_found_doc_is_repaired : bool := %s.\n' % (
+        'true' if re.search(r'Ok\(\(doc,\s*_\)\)\s*=>\s*\{[^}]*self\.repair_document\(id,\s*doc,\s*now_ms\)', loop) else 'false'))
     rd = fn_body(src, 'repair_document', G)
     out.append('Definition repair_bumps_max_id : bool := %s.\n' % (
         'true' if re.search(r'self\.max_document_id\.fetch_max\(id', rd) else 'false'))
